@@ -7,6 +7,7 @@ import (
 	"google.golang.org/protobuf/reflect/protoreflect"
 	"google.golang.org/protobuf/types/dynamicpb"
 
+	"verif/mc/lib/gcore"
 	"verif/mc/lib/refwire"
 )
 
@@ -316,7 +317,9 @@ func variants(md protoreflect.MessageDescriptor, c *dynamicpb.Message, depth int
 			om := dynamicpb.NewMessage(md)
 			switch {
 			case o.Message() != nil:
-				om.Set(o, protoreflect.ValueOfMessage(dynamicpb.NewMessage(o.Message())))
+				sub := dynamicpb.NewMessage(o.Message())
+				gcore.FillRequired(sub) // the superseded member must itself be a valid message
+				om.Set(o, protoreflect.ValueOfMessage(sub))
 			default:
 				om.Set(o, o.Default())
 			}
